@@ -5,6 +5,7 @@ package main
 import (
 	"fmt"
 	"go/ast"
+	"go/parser"
 	"go/token"
 	"go/types"
 	"strconv"
@@ -58,6 +59,11 @@ func (e *Exec) loopEnv(st *State, pos token.Pos, extra map[string]Val) *cenv {
 				if _, isVar := obj.(*types.Var); isVar && obj.Parent() == pkg.Types.Scope() {
 					return e.objVal(s, obj, pos), true
 				}
+				if v, isVar := obj.(*types.Var); isVar {
+					if cv, ok := e.capturedVal(v); ok {
+						return cv, true
+					}
+				}
 			}
 			sc = sc.Parent()
 		}
@@ -86,22 +92,79 @@ func (e *Exec) pkgTypes(env *cenv) *types.Package {
 }
 
 func (e *Exec) resolveType(env *cenv, x ast.Expr) types.Type {
-	s := types.ExprString(x)
 	pkg := e.pkgTypes(env)
-	tv, err := types.Eval(e.prog.fset, pkg, token.NoPos, s)
-	if err != nil || !tv.IsType() {
-		e.fail(x.Pos(), "cannot resolve type %q in package %s: %v", s, pkg.Path(), err)
+	t := e.typeFromExpr(pkg, x)
+	if t == nil {
+		e.fail(x.Pos(), "cannot resolve type %q in package %s", types.ExprString(x), pkg.Path())
 	}
-	return tv.Type
+	return t
 }
 
 func (e *Exec) resolveTypeStr(env *cenv, s string) types.Type {
-	pkg := e.pkgTypes(env)
-	tv, err := types.Eval(e.prog.fset, pkg, token.NoPos, s)
-	if err != nil || !tv.IsType() {
-		e.fail(token.NoPos, "cannot resolve type %q in package %s: %v", s, pkg.Path(), err)
+	x, err := parser.ParseExpr(s)
+	if err != nil {
+		e.fail(token.NoPos, "cannot parse type %q: %v", s, err)
 	}
-	return tv.Type
+	return e.resolveType(env, x)
+}
+
+// typeFromExpr resolves a type expression as seen from a package (imports are found by package name).
+func (e *Exec) typeFromExpr(pkg *types.Package, x ast.Expr) types.Type {
+	switch x := x.(type) {
+	case *ast.Ident:
+		if obj := pkg.Scope().Lookup(x.Name); obj != nil {
+			if tn, ok := obj.(*types.TypeName); ok {
+				return tn.Type()
+			}
+		}
+		if obj := types.Universe.Lookup(x.Name); obj != nil {
+			if tn, ok := obj.(*types.TypeName); ok {
+				return tn.Type()
+			}
+		}
+	case *ast.SelectorExpr:
+		if id, ok := x.X.(*ast.Ident); ok {
+			for _, imp := range pkg.Imports() {
+				if imp.Name() == id.Name {
+					if tn, ok := imp.Scope().Lookup(x.Sel.Name).(*types.TypeName); ok {
+						return tn.Type()
+					}
+				}
+			}
+			// packages of the repository that are loaded but not imported by this one
+			for path, p := range e.prog.pkgs {
+				if shortName(path) == id.Name && p.Types != nil {
+					if tn, ok := p.Types.Scope().Lookup(x.Sel.Name).(*types.TypeName); ok {
+						return tn.Type()
+					}
+				}
+			}
+		}
+	case *ast.StarExpr:
+		if t := e.typeFromExpr(pkg, x.X); t != nil {
+			return types.NewPointer(t)
+		}
+	case *ast.ArrayType:
+		if t := e.typeFromExpr(pkg, x.Elt); t != nil {
+			if x.Len == nil {
+				return types.NewSlice(t)
+			}
+			if bl, ok := x.Len.(*ast.BasicLit); ok {
+				n, _ := strconv.Atoi(bl.Value)
+				return types.NewArray(t, int64(n))
+			}
+		}
+	case *ast.MapType:
+		k, v := e.typeFromExpr(pkg, x.Key), e.typeFromExpr(pkg, x.Value)
+		if k != nil && v != nil {
+			return types.NewMap(k, v)
+		}
+	case *ast.ParenExpr:
+		return e.typeFromExpr(pkg, x.X)
+	case *ast.InterfaceType:
+		return types.NewInterfaceType(nil, nil)
+	}
+	return nil
 }
 
 func (e *Exec) cev(st *State, x ast.Expr, env *cenv) Val {
@@ -380,6 +443,20 @@ func (e *Exec) ccall(st *State, x *ast.CallExpr, env *cenv) Val {
 		if id, ok := sel.X.(*ast.Ident); ok {
 			if _, local := e.tryResolve(st, env, id.Name); !local {
 				pkg := e.pkgTypes(env)
+				// a spec function of another package under contract: core.unprefixed(...)
+				for path := range e.prog.contracts {
+					if shortName(path) != id.Name {
+						continue
+					}
+					if sp := e.prog.specFor(path, sel.Sel.Name); sp != nil {
+						var args []Val
+						for i := range x.Args {
+							args = append(args, arg(i))
+						}
+						env2 := &cenv{vals: env.vals, resolve: env.resolve, old: env.old, pkgPath: path}
+						return e.specCall(st, sp, args, env2, x.Pos())
+					}
+				}
 				for _, imp := range pkg.Imports() {
 					if imp.Name() != id.Name {
 						continue
@@ -474,8 +551,11 @@ func (e *Exec) quant(st *State, forall bool, lit *ast.FuncLit, env *cenv) Val {
 
 // specCall applies a spec function, declaring it on first use.
 func (e *Exec) specCall(st *State, sp *SpecFunc, args []Val, env *cenv, pos token.Pos) Val {
+	if true {
+		return e.specApply(st, sp, args, env, pos)
+	}
 	key := env.pkgPath + "." + sp.Name
-	fname := "|spec:" + sp.Name + "|"
+	fname := "|spec:" + shortName(env.pkgPath) + "." + sp.Name + "|"
 	senv := &cenv{vals: map[string]Val{}, pkgPath: env.pkgPath}
 	rt := e.resolveTypeStr(senv, sp.Ret)
 	rs := e.sr.sortOf(rt)
